@@ -14,7 +14,7 @@ func init() {
 	register(&propInfo{
 		ID:          "C18",
 		Run:         runC18,
-		MinObl:      30,
+		MinObl:      72,
 		Explanation: "Decided: R1 error discipline — on every success exit of every handler-interface implementation and endpoint function, the error result of each storage-interface call executed on the path is known nil (tested and taken on the nil edge); named tolerations: errors.Is(err, ErrNotFound) in the refresh-reuse branch and in the PKCE clean-up, ErrNotFound/ErrInactiveToken in RevokeToken's mapper, RevokeToken's first discovery lookup; R2 transaction typestate for every function that calls MaybeBeginTx: begin failure exits without touching the transaction; every success exit after begin has exactly one MaybeCommitTx whose error is nil and no rollback; every fail exit after a successful begin has executed MaybeRollbackTx; commit is never reached after a storage write of the transaction returned non-nil; no storage write follows commit or rollback; begin/commit/rollback take the same storage term and commit/rollback take the context begin returned; R3 NewAccessResponse returns a non-nil responder only if every PopulateTokenEndpointResponse result was nil or ErrUnknownRequest and access token and token type are set; R4 in the refresh-issue function a storage error satisfying errors.Is(·, ErrSerializationFailure) exits as an ErrInvalidRequest-derived (retryable) error; R5 validate-phase functions mutate storage only in their replay/reuse branches (jti registration exempt). R1 also: a storage failure is never returned as ErrUnknownRequest (which the endpoint layer treats as 'handler not responsible' and skips), except for the documented no-such-session cases; R6 RFC6749Error.Is reports identity only if both the error name and the status code are equal (several values share the name 'error'). NOT decided: crash points, fault pairs, what a retry observes, atomicity of the store's own rollback.",
 	})
 }
